@@ -83,6 +83,8 @@ def query_text(ob):
         s.add(z3.Not(ob.goal))
     txt = s.to_smt2()
     txt = txt.replace("(set-info :status unknown)", "(set-logic ALL)")
+    # z3's simplifier splits seq.nth into in-bounds / out-of-bounds variants; both are seq.nth
+    txt = txt.replace("seq.nth_i", "seq.nth").replace("seq.nth_u", "seq.nth")
     ob.nfacts = len(facts)
     return txt
 
